@@ -214,13 +214,9 @@ var hashParts = []string{"parse outcome", "reported errors", "tree after parsing
 // see process-global residue that it inherits itself (DESIGN.md §4.1).
 func (b *build) isolatedReferences(base, scnPath string, s *scn.Scenario, res *scn.Result) (*scn.Violation, string) {
 	n := len(res.PipeHashes)
-	if n > 10 {
-		n = 10
-	}
-	for k := 0; k < n; k++ {
-		if res.PipeHashes[k] == "" {
-			continue
-		}
+	// simref runs one fresh plain process: pipeline k alone (k >= 0), or every
+	// pipeline one after the other in REVERSE order (k == -2)
+	simref := func(k int) (*scn.Result, string) {
 		isoPath := base + ".iso.json"
 		os.Remove(isoPath)
 		cmd := exec.Command(b.simref, "-scn", scnPath, "-out", isoPath, "-iso", strconv.Itoa(k))
@@ -242,18 +238,18 @@ func (b *build) isolatedReferences(base, scnPath string, s *scn.Scenario, res *s
 			return nil, "simref produced no result for pipeline " + strconv.Itoa(k)
 		}
 		var iso scn.Result
-		if err := json.Unmarshal(raw, &iso); err != nil || len(iso.PipeHashes) != 1 {
+		if err := json.Unmarshal(raw, &iso); err != nil {
 			return nil, "unreadable simref result"
 		}
 		if iso.Infra != "" {
 			return nil, "simref: " + iso.Infra
 		}
-		res.IsoChecked++
-		if iso.PipeHashes[0] == res.PipeHashes[k] {
-			continue
-		}
-		got, want := strings.Split(res.PipeHashes[k], ","), strings.Split(iso.PipeHashes[0], ",")
-		what := "number of observations"
+		return &iso, ""
+	}
+	// which observation of pipeline k differs between two hash lists
+	diffWhat := func(k int, a, b string) (what, sig string) {
+		got, want := strings.Split(a, ","), strings.Split(b, ",")
+		what = "number of observations"
 		if len(got) == len(want) {
 			for i := range got {
 				if got[i] != want[i] {
@@ -269,24 +265,79 @@ func (b *build) isolatedReferences(base, scnPath string, s *scn.Scenario, res *s
 				}
 			}
 		}
+		sig = strings.Fields(what)[0]
+		if s.Kind != "C" && strings.HasPrefix(what, "operation ") {
+			pl := flattenPipes(s)[k]
+			i, _ := strconv.Atoi(strings.TrimPrefix(what, "operation "))
+			if i < len(pl.Ops) {
+				what += " (" + pl.Ops[i].Kind + ")"
+				sig = "op-" + pl.Ops[i].Kind
+			}
+		}
+		return
+	}
+	checked := map[int]bool{}
+	alone := func(k int) (*scn.Violation, string) {
+		checked[k] = true
+		iso, infra := simref(k)
+		if infra != "" {
+			return nil, infra
+		}
+		if len(iso.PipeHashes) != 1 {
+			return nil, "unreadable simref result"
+		}
+		res.IsoChecked++
+		if iso.PipeHashes[0] == res.PipeHashes[k] {
+			return nil, ""
+		}
 		if s.Kind == "C" {
 			return &scn.Violation{Oracle: "O1-equals-alone", Sig: "isolated:cli", Detail: fmt.Sprintf("file %s (%s): what php-parser %s produces for it differs between a run ALONE inside the process that had just run the whole tree concurrently and a run ALONE in a fresh process: state left behind in the process changes the result. fresh process: %s", s.Inputs[k].Path, s.Inputs[k].Name, strings.Join(s.CLIFlags, " "), strings.Join(iso.Trace, " | "))}, ""
 		}
+		what, sig := diffWhat(k, res.PipeHashes[k], iso.PipeHashes[0])
 		pl := flattenPipes(s)[k]
 		in := s.Inputs[pl.Input]
-		opk := ""
-		if strings.HasPrefix(what, "operation ") {
-			i, _ := strconv.Atoi(strings.TrimPrefix(what, "operation "))
-			if i < len(pl.Ops) {
-				opk = pl.Ops[i].Kind
-				what += " (" + opk + ")"
+		return &scn.Violation{Oracle: "O1-equals-alone", Sig: "isolated:" + sig, Detail: fmt.Sprintf("pipeline %d (input %s, version %q): %s differs between the simulated concurrent run and the same pipeline executed ALONE in a fresh process; the in-process reference pass agreed with the concurrent run, so state left behind in the process by other work changes this result. alone: %s", k, in.Name, in.Version, what, strings.Join(iso.Trace, " | "))}, ""
+	}
+	// (1) order independence: all pipelines once more in a fresh process, one
+	// after the other in reverse order. If every result equals the result of
+	// the same work done alone, the order cannot matter; a pipeline that differs
+	// is then executed alone to say which of the two results is the wrong one.
+	if s.Kind != "C" && n >= 2 {
+		rev, infra := simref(-2)
+		if infra != "" {
+			return nil, infra
+		}
+		if len(rev.PipeHashes) != n {
+			return nil, "unreadable simref result (reverse-order pass)"
+		}
+		res.IsoChecked++
+		for k := 0; k < n; k++ {
+			if res.PipeHashes[k] == "" || rev.PipeHashes[k] == "" || rev.PipeHashes[k] == res.PipeHashes[k] {
+				continue
 			}
+			if v, infra := alone(k); infra != "" || v != nil {
+				return v, infra
+			}
+			what, sig := diffWhat(k, rev.PipeHashes[k], res.PipeHashes[k])
+			pl := flattenPipes(s)[k]
+			in := s.Inputs[pl.Input]
+			return &scn.Violation{Oracle: "O1-equals-alone", Sig: "order:" + sig, Detail: fmt.Sprintf("pipeline %d (input %s, version %q): %s differs when all pipelines of the run are executed one after the other in reverse order in a fresh process, although the concurrent run agrees with the pipeline executed alone: what was processed earlier in the process changes this result", k, in.Name, in.Version, what)}, ""
 		}
-		sig := "isolated:" + strings.Fields(what)[0]
-		if opk != "" {
-			sig = "isolated:op-" + opk
+	}
+	// (2) a sample of at most 6 pipelines (files), each ALONE in a fresh process;
+	// when there are more, spread over all of them with a run-dependent offset
+	stride, off := 1, 0
+	if n > 6 {
+		stride = (n + 5) / 6
+		off = int(s.RunSeed % uint64(stride))
+	}
+	for k := off; k < n; k += stride {
+		if res.PipeHashes[k] == "" || checked[k] {
+			continue
 		}
-		return &scn.Violation{Oracle: "O1-equals-alone", Sig: sig, Detail: fmt.Sprintf("pipeline %d (input %s, version %q): %s differs between the simulated concurrent run and the same pipeline executed ALONE in a fresh process; the in-process reference pass agreed with the concurrent run, so state left behind in the process by other work changes this result. alone: %s", k, in.Name, in.Version, what, strings.Join(iso.Trace, " | "))}, ""
+		if v, infra := alone(k); infra != "" || v != nil {
+			return v, infra
+		}
 	}
 	return nil, ""
 }
